@@ -28,7 +28,7 @@ Full statement / proved / missing
                            (`expand`: a reference must name an EARLIER, COMPLETED position) succeeds and gives exactly
                            the stream the serializer emits with local_reference=false — i.e. every reference stands for
                            a position that held the value it replaces.
-* `C10_roundtrip`        — PROVED for DAGs (shared arrays, hashes, strings, Sensitive, Binary, leaves, types — anonymous
+* `C10_roundtrip_partial` — (full statement: `C10_roundtrip_full`, refuted by `C10_reserved_key_collision`) PROVED for DAGs (shared arrays, hashes, strings, Sensitive, Binary, leaves, types — anonymous
                            and named ones the loader knows —, object instances; non-string keys; hashes as keys) under
                            two hypotheses:
                              `Shared`  equal identities carry equal values (what "the same object twice" means),
@@ -103,7 +103,7 @@ theorem CInv.init : CInv [] := fun p t h => by simp at h
 theorem MInv.init (G : Nat → Option D) : MInv G DS.init.memo := fun i r h => by simp [DS.init] at h
 
 /-- deserializing the emitted stream yields the original value (identities aside; Sensitive by content) -/
-theorem C10_roundtrip (o : Opts) (cp : Caps) (v : V) (hS : Shared (mkCfg o cp) v) (hf : Frag (mkCfg o cp) v) :
+theorem C10_roundtrip_partial (o : Opts) (cp : Caps) (v : V) (hS : Shared (mkCfg o cp) v) (hf : Frag (mkCfg o cp) v) :
     ∃ r, deserialize (serialize o cp v) = .ok r ∧ r.abs = v.abs := by
   obtain ⟨F, hF, hC⟩ := hS
   -- the references resolve to the reference-free stream
@@ -143,24 +143,30 @@ example : serialize ⟨true, true, 2⟩ ⟨true, true, 0⟩ (.arr 1 [sampleHash,
 /-- the theorems apply to it: for every threshold, with rich data -/
 example (cp : Caps) (dedup : Nat) (lref : Bool) (h : sharedB (mkCfg ⟨true, lref, dedup⟩ cp) sampleDag = true) :
     ∃ r, deserialize (serialize ⟨true, lref, dedup⟩ cp sampleDag) = .ok r ∧ r.abs = sampleDag.abs :=
-  C10_roundtrip _ _ _ (C10_shared_of_check _ _ h) ⟨by decide, fun h => by simp [mkCfg] at h⟩
+  C10_roundtrip_partial _ _ _ (C10_shared_of_check _ _ h) ⟨by decide, fun h => by simp [mkCfg] at h⟩
 /-- … and a Data value with rich_data=false, shared array and string -/
 def sampleData : V := .arr 1 [.arr 2 [.str longStr, .flt 4609434218613702656], .arr 2 [.str longStr, .flt 4609434218613702656],
   .hash 3 [(.str "k", .str longStr), (.str "__pvalue", .undef)]]
 example : ∃ r, deserialize (serialize ⟨false, true, 2⟩ ⟨false, false, 20⟩ sampleData) = .ok r ∧ r.abs = sampleData.abs :=
-  C10_roundtrip _ _ _ (C10_shared_of_check _ _ (by decide)) ⟨by decide, fun _ => by decide⟩
+  C10_roundtrip_partial _ _ _ (C10_shared_of_check _ _ (by decide)) ⟨by decide, fun _ => by decide⟩
 /-- … and object instances (shared, nested, holding a Sensitive) with named and anonymous types -/
 def samplePair : V := .obj 2 "Verif::Pair" "Verif::Pair('a' => 1, 'b' => …)" [("a", .int 1), ("b", .sens 3 (.str longStr))]
 def sampleObjs : V :=
   .arr 1 [samplePair, samplePair, .obj 4 "Verif::Box" "Verif::Box(…)" [("v", samplePair)], .str "Verif::Pair",
     .leaf 5 .td "Verif::Pair" "Verif::Pair", .leaf 6 .ty "Integer[1, 2]" "Integer[1, 2]", .obj 7 "Verif::Unit" "Verif::Unit()" []]
 example : ∃ r, deserialize (serialize ⟨true, true, 2⟩ ⟨false, false, 0⟩ sampleObjs) = .ok r ∧ r.abs = sampleObjs.abs :=
-  C10_roundtrip _ _ _ (C10_shared_of_check _ _ (by decide)) ⟨by decide, fun h => by simp [mkCfg] at h⟩
+  C10_roundtrip_partial _ _ _ (C10_shared_of_check _ _ (by decide)) ⟨by decide, fun h => by simp [mkCfg] at h⟩
+
+/-- the references of the sample resolve to the stream emitted with local_reference=false, whatever the consumer -/
+example (cp : Caps) (h : sharedB (mkCfg ⟨true, true, 2⟩ cp) sampleDag = true) :
+    ∃ env, expand (serialize ⟨true, true, 2⟩ cp sampleDag) [] = some (serialize ⟨true, false, 2⟩ cp sampleDag, env) :=
+  C10_refs_wellformed _ _ _ (C10_shared_of_check _ _ h)
+example : (serialize ⟨true, true, 2⟩ ⟨false, false, 0⟩ sampleDag).wf true true = true := C10_caps _ ⟨false, false, 0⟩ _
 
 /-- the position invariant is not vacuous: the collector accepts the stream of the sample -/
 example : ∃ d vals', collect (serialize ⟨true, true, 2⟩ ⟨false, false, 0⟩ sampleDag) [] = .ok (d, vals') ∧
     vals'.length = (serialize ⟨true, true, 2⟩ ⟨false, false, 0⟩ sampleDag).npos := by
-  obtain ⟨r, hr, _⟩ := C10_roundtrip ⟨true, true, 2⟩ ⟨false, false, 0⟩ sampleDag
+  obtain ⟨r, hr, _⟩ := C10_roundtrip_partial ⟨true, true, 2⟩ ⟨false, false, 0⟩ sampleDag
     (C10_shared_of_check _ _ (by decide)) ⟨by decide, fun h => by simp [mkCfg] at h⟩
   unfold deserialize at hr
   split at hr
